@@ -369,6 +369,61 @@ impl World {
             }
         }
     }
+    /// two consecutive calls of the shipped runner on the same environment and the same agents (a warm-up phase and a
+    /// main phase, each with its own seed); between the two the environment value may be moved to another heap address
+    pub fn run_shipped_two_phase(&mut self, specs: &[AgentSpec], ticks: &[u32], seeds: (u64, u64), steps: (u64, u64), relocate_env: bool) -> bool {
+        fn relocate<T>(b: &mut Box<T>, fresh: T) -> bool {
+            let old_addr = &**b as *const T as usize;
+            let nb = Box::new(fresh); // allocated while the old box is alive: a different address
+            let old = std::mem::replace(b, nb);
+            **b = *old;
+            (&**b as *const T as usize) != old_addr
+        }
+        let mut moved = false;
+        match self {
+            World::S(e) => {
+                let mut set = make_set(specs, ticks);
+                sim_runner(e.as_mut(), &mut set, seeds.0, steps.0, false);
+                if relocate_env {
+                    moved = relocate(e, Env::new(0, 1, 1, true));
+                }
+                sim_runner(e.as_mut(), &mut set, seeds.1, steps.1, false)
+            }
+            World::M1(e) => {
+                let mut set = make_mset(specs, ticks);
+                market_sim_runner(e.as_mut(), &mut set, seeds.0, steps.0, false);
+                if relocate_env {
+                    moved = relocate(e, MarketEnv::<1, 10>::new(0, [1], 1, true));
+                }
+                market_sim_runner(e.as_mut(), &mut set, seeds.1, steps.1, false)
+            }
+            World::M2(e) => {
+                let mut set = make_mset(specs, ticks);
+                market_sim_runner(e.as_mut(), &mut set, seeds.0, steps.0, false);
+                if relocate_env {
+                    moved = relocate(e, MarketEnv::<2, 10>::new(0, [1, 1], 1, true));
+                }
+                market_sim_runner(e.as_mut(), &mut set, seeds.1, steps.1, false)
+            }
+            World::M3(e) => {
+                let mut set = make_mset(specs, ticks);
+                market_sim_runner(e.as_mut(), &mut set, seeds.0, steps.0, false);
+                if relocate_env {
+                    moved = relocate(e, MarketEnv::<3, 10>::new(0, [1, 1, 1], 1, true));
+                }
+                market_sim_runner(e.as_mut(), &mut set, seeds.1, steps.1, false)
+            }
+            World::M3S(e) => {
+                let mut set = make_mset(specs, ticks);
+                market_sim_runner(e.as_mut(), &mut set, seeds.0, steps.0, false);
+                if relocate_env {
+                    moved = relocate(e, MarketEnv::<3, 1>::new(0, [1, 1, 1], 1, true));
+                }
+                market_sim_runner(e.as_mut(), &mut set, seeds.1, steps.1, false)
+            }
+        }
+        moved
+    }
     /// the documented loop `agents.update(env, rng); env.step(rng)` with the harness's generator
     pub fn run_manual(&mut self, specs: &[AgentSpec], ticks: &[u32], rng: &mut SeamRng, n_steps: u64) {
         match self {
@@ -701,6 +756,27 @@ pub fn execute_c09(scn: &W4Scn, run_dir: &str) -> RunOutcome {
             }
             if all_equal {
                 return Err(v(scn, "nondeterministic", "16 distinct seeds", "not all outputs equal".into(), "all equal".into()).detail("the seed does not influence a simulation with guaranteed activity".into()));
+            }
+        }
+        // two runner calls on one environment and one agent set (warm-up + main phase): where the environment value lives in
+        // memory between the two calls must not matter (addresses are not an input of a simulation)
+        if seed % 4 == 0 && scn.cfg.n_steps >= 2 {
+            let steps = (scn.cfg.n_steps / 2, scn.cfg.n_steps - scn.cfg.n_steps / 2);
+            let seeds = (seed, seed ^ 0x9E37_79B9);
+            let two = |relocate: bool| -> (u64, bool) {
+                let mut w = World::new(&scn.cfg);
+                seed_world(&mut w, scn);
+                let moved = w.run_shipped_two_phase(&scn.agents, &scn.cfg.ticks, seeds, steps, relocate);
+                (w.digest(), moved)
+            };
+            let (da, _) = guard(|| two(false)).map_err(|m| v(scn, "agent-abort", "sim_runner (two phases)", "no abort".into(), m))?;
+            let (db, moved) = guard(|| two(true)).map_err(|m| v(scn, "agent-abort", "sim_runner (two phases, environment moved)", "no abort".into(), m))?;
+            if moved {
+                stats.fault("environment_relocated_between_runner_calls");
+            }
+            if da != db {
+                return Err(v(scn, "nondeterministic", "digest(two runner calls) vs digest(two runner calls, environment moved in memory in between)", da.to_string(), db.to_string())
+                    .detail("the same environment value at another memory address gives another simulation: an address influences the outcome".into()));
             }
         }
         stats.end_digest = d1;
